@@ -20,6 +20,10 @@ def run(ctx):
     ctx.rule("C05.L12", "the parser that reloads an emitted function binds as the documented table says (levels, members, associativity): the emitter parenthesises against that table, so a parser that merges or reorders levels reads unparenthesised output as another tree", floor=30)
     c10_.CRATE[0] = core
     c10_.binding_levels_rule(ctx, "C05.L12", core, c10_.precedence_rows(core))
+    from rules import c02 as c02_
+    ctx.rule("C05.R14", "what a function does does not depend on how a value was written: the emitter writes captured values as literals, so the operator evaluator must not treat a literal operand differently from a variable holding the same value; and the parser that reloads emitted source has no call budget (a captured table is one large literal)", floor=2)
+    c02_.operand_syntax_rule(ctx, "C05.R14", core)
+    c02_.process_wide_setters(ctx, "C05.R14", [core, cli, ctx.wasm])
     P.L4_strings(ctx, "C05.L4", core, G)
     P.L5_nonfinite(ctx, "C05.L5", core)
     P.L6_reserved(ctx, "C05.L6", core, G)
